@@ -429,24 +429,36 @@ theorem rank_fresh_user_witness :
 
 theorem depositable_iff (v : Vault) (now : Int) :
     validateDepositable v now = .ok () ↔
-      v.confirmed = false ∧ windowIndex now v.timeWindow = windowIndex v.ts v.timeWindow := by
+      v.confirmed = false ∧ v.timeWindow ≠ 0 ∧
+        windowIndex now v.timeWindow = windowIndex v.ts v.timeWindow := by
   unfold validateDepositable
-  cases hc : v.confirmed <;> by_cases h : windowIndex now v.timeWindow = windowIndex v.ts v.timeWindow <;>
-    simp [h]
+  cases hc : v.confirmed <;> by_cases hz : v.timeWindow = 0 <;>
+    by_cases h : windowIndex now v.timeWindow = windowIndex v.ts v.timeWindow <;> simp [h, hz]
 
 theorem confirmable_iff (v : Vault) (now : Int) :
     validateConfirmable v now = .ok () ↔
-      v.initialized = true ∧ v.confirmed = false ∧
+      v.initialized = true ∧ v.confirmed = false ∧ v.timeWindow ≠ 0 ∧
         windowIndex now v.timeWindow > windowIndex v.ts v.timeWindow := by
   unfold validateConfirmable
-  cases hi : v.initialized <;> cases hc : v.confirmed <;>
-    by_cases h : windowIndex now v.timeWindow > windowIndex v.ts v.timeWindow <;> simp [h]
+  cases hi : v.initialized <;> cases hc : v.confirmed <;> by_cases hz : v.timeWindow = 0 <;>
+    by_cases h : windowIndex now v.timeWindow > windowIndex v.ts v.timeWindow <;> simp [h, hz]
+
+/-- an initialised vault always has a positive window, so the division in the window index is
+never by zero on the request/confirm paths (which require `is_initialized`). -/
+theorem vaultInit_window_pos {v v' : Vault} {now : Int} {tw : Nat} (h : vaultInit v now tw = .ok v') :
+    v'.initialized = true ∧ v'.timeWindow = tw ∧ tw ≠ 0 ∧ v'.ts = now ∧ v'.confirmed = v.confirmed := by
+  unfold Gt.vaultInit at h
+  split at h
+  · cases h
+  · split at h
+    · cases h
+    · rename_i h2; cases h; simp [h2]
 
 /-- a vault is never depositable and confirmable at the same instant. -/
 theorem not_depositable_and_confirmable (v : Vault) (now : Int) :
     ¬ (validateDepositable v now = .ok () ∧ validateConfirmable v now = .ok ()) := by
   rw [depositable_iff, confirmable_iff]
-  intro ⟨⟨_, h1⟩, _, _, h2⟩
+  intro ⟨⟨_, _, h1⟩, _, _, _, h2⟩
   omega
 
 /-- once confirmed a vault accepts no deposit and no second confirmation. -/
